@@ -33,10 +33,24 @@ def run(tier, seed):
     big = tier == "thorough"
     c = {"TimeMenu": "<- Times", "LevelsMenu": "<- LevelsSmall", "FactLimits": "<- FactLims", "IterLimits": "<- IterLims",
          "CallSeqs": "<- Calls3", "ExportOn": True}
+    if big:
+        c.update({"LevelsMenu": "<- LevelsBig", "FactLimits": "<- FactLimsBig", "IterLimits": "<- IterLimsBig", "CallSeqs": "<- Calls5"})
     cfg = vlib.write_cfg(os.path.join(ctx.work, "limits.cfg"), c, INV + ["Export"])
     res = ctx.tlc("Limits", cfg, name="limits", tags=("LIM",), seed=seed)
     if res.violated:
         raise vlib.ToolError("Limits.tla invariant %s violated" % res.violated)
+    # unbounded: the same state machine over integers (any shape, any limits, any number of calls) has an inductive
+    # invariant that implies OkWithinBudget / NeverOverIter / ExhaustedIsFinal - discharged by Apalache
+    steps = {"init_implies_inv": ("--cinit=ConstInit", "--init=Init", "--inv=IndInv", "--length=0"),
+             "inv_is_inductive": ("--cinit=ConstInit", "--init=IndInit", "--inv=IndInv", "--length=1"),
+             "inv_implies_safety": ("--cinit=ConstInit", "--init=IndInit", "--inv=Safety", "--length=0")}
+    ind = {}
+    for k, a in steps.items():
+        ind[k] = vlib.apalache("LimitsInd", ctx.work, k, *a)
+        if not ind[k]:
+            raise vlib.ToolError("LimitsInd.tla: Apalache refutes step %s of the inductive argument" % k)
+    ctx.cov["unbounded_inductive_invariant"] = dict(ind, module="LimitsInd.tla", tool="apalache-mc 0.58")
+    vlib.log("[C10] Apalache: IndInv of LimitsInd.tla is inductive and implies the budget safety properties (unbounded)")
     # group terminal states by scenario -> admissible result sequences
     groups = collections.OrderedDict()
     for row in vlib.read_ndjson(res.exports["LIM"]):
@@ -134,7 +148,8 @@ def run(tier, seed):
     return ctx.finish(
         rule="TLC explores the budget state machine (Limits.tla) over program shapes (level sizes per pass: rule-free, chains of 1..5 passes, one wide pass) x "
              "max_facts in {0,3,5,7,9,12,1000} x max_iterations in {0,1,2,3,5,1000} x call sequences (run/authorize/query/query_all and snapshot = save + continue on the restored authorizer, up to 4 calls), "
-             "with invariants OkWithinBudget, ExhaustedIsFinal, NoStuck; the set of admissible outcome sequences of each scenario is exported. "
+             "with invariants OkWithinBudget, ExhaustedIsFinal, NoStuck; the set of admissible outcome sequences of each scenario is exported. LimitsInd.tla restates the machine over "
+             "integers for any shape / limits / number of calls; Apalache discharges its inductive invariant (Init => IndInv, IndInv /\\ Next => IndInv', IndInv => safety). "
              "Replay: each scenario is realised by a concrete program and executed call by call on a real authorizer; the outcome sequence must be admissible and "
              "iterations()/fact_count() must be within budget on success. The per-pass hook events of all scenarios are validated by TLC (LimitsTrace.tla). "
              "Wall-clock: a cubic join under a few ms of max_time must return within 20 x max_time + 250 ms.",
